@@ -508,6 +508,84 @@ func listingUnderDoneContext(run *evid.Run, idx int) {
 	}
 }
 
+// listingFromStartPoint: Repositories asked to start after a name, over wrapped registries that treat the
+// start point their own way (ignore it, include it, or list strictly after it). Whatever the wrapped
+// registry delivers, a name the policy rejects is not passed on - the start point itself included - and
+// the names passed on are exactly the allowed ones among those delivered.
+func listingFromStartPoint(run *evid.Run, idx int) {
+	polSalt = uint32(idx)*11 + 5
+	names := []string{"a/allowed", "b/secret", "c/allowed", "d/allowed", "e/secret", "f/allowed"}
+	rejected := map[string]bool{"b/secret": true, "e/secret": true}
+	paging := []string{"ignores-start", "includes-start", "strictly-after"}[idx%3]
+	deliver := func(startAfter string) []string {
+		var out []string
+		for _, n := range names {
+			if paging == "ignores-start" || startAfter == "" || n > startAfter || (paging == "includes-start" && n == startAfter) {
+				out = append(out, n)
+			}
+		}
+		if paging == "includes-start" && startAfter != "" {
+			// the boundary item repeated, as a registry that re-sends the last item of the previous page does
+			out = append([]string{startAfter}, out...)
+		}
+		return out
+	}
+	backend := &ociregistry.Funcs{
+		Repositories_: func(ctx context.Context, startAfter string) ociregistry.Seq[string] {
+			return ociregistry.SliceSeq(deliver(startAfter))
+		},
+	}
+	for _, sel := range []bool{false, true} {
+		var reg ociregistry.Interface
+		variant := "accesschecker"
+		if sel {
+			variant = "select"
+			reg = ocifilter.Select(backend, func(repo string) bool { return !rejected[repo] })
+		} else {
+			reg = ocifilter.AccessChecker(backend, func(repo string, kind ocifilter.AccessKind) error {
+				if rejected[repo] {
+					return newPolicyErr(repo, kind)
+				}
+				return nil
+			})
+		}
+		for _, start := range append([]string{"", "b", "zzz"}, names...) {
+			var got []string
+			var gotErr error
+			run.Eval(1)
+			if !run.Case("total/"+variant, map[string]any{"op": "Repositories from " + start + " over a backend that " + paging}, func() {
+				reg.Repositories(context.Background(), start)(func(name string, err error) bool {
+					if err != nil {
+						gotErr = err
+						return false
+					}
+					got = append(got, name)
+					return true
+				})
+			}) {
+				continue
+			}
+			run.Count("listings_from_start_point", 1)
+			run.Distinct(fmt.Sprintf("listing-start-point/%s/%s/%v", variant, paging, rejected[start]))
+			var want []string
+			for _, n := range deliver(start) {
+				if !rejected[n] {
+					want = append(want, n)
+				}
+			}
+			wit := map[string]any{"variant": variant, "start_after": start, "wrapped_registry": paging, "wrapped_registry_delivers": deliver(start), "delivered": got, "policy_rejects": rejected, "error": fmt.Sprint(gotErr)}
+			for _, n := range got {
+				if rejected[n] {
+					run.Violation("rejected-in-listing/"+variant+"/start-point", fmt.Sprintf("Repositories(startAfter=%q) delivered %q, which the policy rejects", start, n), wit)
+				}
+			}
+			if gotErr != nil || fmt.Sprint(got) != fmt.Sprint(want) {
+				run.Violation("allowed-call-differs/"+variant+"/Repositories/start-point", fmt.Sprintf("Repositories(startAfter=%q) delivered %q (error %v); the allowed names among those the wrapped registry delivers are %q", start, got, gotErr, want), wit)
+			}
+		}
+	}
+}
+
 // patientConsumer: Tags and Referrers of a rejected repository, ranged over by a consumer that records
 // an error and carries on (`if err != nil { errs = append(errs, err); continue }` is a legal way to
 // consume a Seq). The rejection is final: the wrapped registry is not invoked and nothing of the
@@ -776,6 +854,10 @@ func main() {
 		listingUnderDoneContext(run, i)
 	}
 	run.FloorCounter("listings_under_done_context", 200)
+	for i := 0; i < 6; i++ {
+		listingFromStartPoint(run, i)
+	}
+	run.FloorCounter("listings_from_start_point", 100)
 	for i := 0; i < 12; i++ {
 		patientConsumer(run, i)
 	}
